@@ -471,4 +471,92 @@ Section Format.
           destruct (Z.ltb_spec (fp_tail p emin (decN m e) (decD e)) 0); [lia|].
           destruct (Z.ltb_spec inf_bits (fp_tail p emin (decN m e) (decD e))); [lia|]. exact Hrt.
   Qed.
+
+  (* ---- uniqueness: the specification admits at most one pattern ---- *)
+  Lemma rep_ok b : 0 <= b -> canon (fp_expo p emin b) (fp_mant p b) /\ bitsof (fp_expo p emin b) (fp_mant p b) = b.
+  Proof.
+    pose proof P_pos as HP. intros Hb. unfold fp_expo, fp_mant, bitsof. fold P.
+    pose proof (Z.div_mod b P ltac:(lia)) as Hdm. pose proof (Z.mod_pos_bound b P ltac:(lia)) as Hmod.
+    assert (Hdiv : 0 <= b / P) by (apply Z.div_pos; lia).
+    destruct (Z.eqb_spec (b / P) 0) as [E|E].
+    - split; [left; split; [reflexivity|lia]|]. rewrite E in Hdm. lia.
+    - split; [destruct (Z.eq_dec (b / P) 1); [left|right]; lia|]. nia.
+  Qed.
+
+  (* value of a pattern in units of the least quantum, and its quantum *)
+  Definition Wb (b : Z) : Z := fp_mant p b * 2 ^ (fp_expo p emin b - emin).
+  Definition Gb (b : Z) : Z := 2 ^ (fp_expo p emin b - emin).
+
+  Lemma Gb_pos b : 0 <= b -> 0 < Gb b.
+  Proof. intros Hb. destruct (rep_ok b Hb) as [Hc _]. unfold Gb. apply pow2_pos. destruct Hc as [[? ?]|[? ?]]; lia. Qed.
+
+  Lemma Wb_succ b : 0 <= b -> Wb (b + 1) = Wb b + Gb b.
+  Proof.
+    pose proof P_pos as HP. intros Hb. destruct (rep_ok b Hb) as [Hc Hbits].
+    destruct (nxt_ok _ _ Hc) as [Hc2 Hb2]. rewrite Hbits in Hb2.
+    destruct (mant_expo _ _ Hc2) as [Hm2 He2]. rewrite <- Hb2 in Hm2, He2.
+    unfold Wb, Gb. rewrite Hm2, He2. set (k := fp_expo p emin b) in *. set (q := fp_mant p b) in *.
+    assert (Hk : emin <= k) by (destruct Hc as [[? ?]|[? ?]]; lia).
+    unfold nxt. destruct (Z.ltb_spec (q + 1) (2 * P)) as [H|H]; cbn [fst snd].
+    - ring.
+    - assert (q = 2 * P - 1) by (destruct Hc as [[? ?]|[? ?]]; lia).
+      replace (k + 1 - emin) with (1 + (k - emin)) by lia. rewrite Z.pow_add_r by lia. change (2 ^ 1) with 2. nia.
+  Qed.
+
+  Definition Sb (b : Z) : Z := Wb b + Wb (b + 1).
+
+  Lemma Sb_succ b : 0 <= b -> Sb b < Sb (b + 1).
+  Proof.
+    intros Hb. unfold Sb. rewrite (Wb_succ (b + 1)) by lia. rewrite (Wb_succ b) by lia.
+    pose proof (Gb_pos b Hb). pose proof (Gb_pos (b + 1) ltac:(lia)). lia.
+  Qed.
+
+  Lemma Sb_mono a b : 0 <= a -> a < b -> Sb a < Sb b.
+  Proof.
+    intros Ha Hab. replace b with (a + 1 + Z.of_nat (Z.to_nat (b - a - 1))) by lia.
+    induction (Z.to_nat (b - a - 1)) as [|n IH].
+    - rewrite Z.add_0_r. apply Sb_succ. exact Ha.
+    - rewrite Nat2Z.inj_succ. replace (a + 1 + Z.succ (Z.of_nat n)) with (a + 1 + Z.of_nat n + 1) by lia.
+      apply Z.lt_trans with (Sb (a + 1 + Z.of_nat n)); [exact IH | apply Sb_succ; lia].
+  Qed.
+
+  Lemma cmpmid_Sb m e b : 0 <= b -> cmpmid m e b = (X (decN m e) ?= Sb b * decD e).
+  Proof.
+    intros Hb. destruct (rep_ok b Hb) as [Hc Hbits]. unfold cmpmid. rewrite <- Hbits at 1 2. rewrite (mid_cmp m e _ _ Hc).
+    destruct (nxt_ok _ _ Hc) as [Hc2 Hb2]. rewrite Hbits in Hb2.
+    destruct (mant_expo _ _ Hc2) as [Hm2 He2]. rewrite <- Hb2 in Hm2, He2.
+    unfold Sb, Wb, W. rewrite Hm2, He2. reflexivity.
+  Qed.
+
+  Lemma rt_core_unique m e b b' : 0 <= b -> b < b' -> b' <= inf_bits ->
+    rt_core m e b = true -> rt_core m e b' = true -> False.
+  Proof.
+    intros Hb Hlt Hb' H1 H2. unfold rt_core in H1, H2.
+    apply andb_true_iff in H1. destruct H1 as [_ Hu]. apply andb_true_iff in H2. destruct H2 as [Hl _].
+    destruct (Z.eqb_spec b inf_bits) as [|_]; [lia|].
+    destruct (Z.eqb_spec b' 0) as [|_]; [lia|].
+    rewrite (cmpmid_Sb m e b Hb) in Hu. rewrite (cmpmid_Sb m e (b' - 1) ltac:(lia)) in Hl.
+    pose proof (decD_pos e) as HD.
+    destruct (Z.eq_dec b (b' - 1)) as [E|E].
+    - rewrite <- E in Hl.
+      destruct (Z.compare_spec (X (decN m e)) (Sb b * decD e)); try discriminate.
+      (* a tie: both neighbours would have to be even *)
+      assert (b' = b + 1) by lia. subst b'. rewrite Z.even_add in Hl. rewrite Hu in Hl. discriminate.
+    - pose proof (Sb_mono b (b' - 1) Hb ltac:(lia)) as Hm.
+      destruct (Z.compare_spec (X (decN m e)) (Sb b * decD e)); destruct (Z.compare_spec (X (decN m e)) (Sb (b' - 1) * decD e)); try discriminate; nia.
+  Qed.
+
+  Theorem fp_rounds_to_unique : forall m e b, fp_rounds_to p emin m e b = true -> b = fp_mag p emin m e.
+  Proof.
+    intros m e b H. pose proof (fp_mag_correct m e) as Hc. rewrite fp_rounds_to_unfold in H, Hc. rewrite fp_mag_unfold in *.
+    destruct (Z.ltb_spec b 0) as [|Hb0]; [discriminate|]. destruct (Z.ltb_spec inf_bits b) as [|Hbi]; [discriminate|]. cbn [orb] in H.
+    destruct (m <=? 0); [apply Z.eqb_eq in H; exact H|].
+    destruct (e + Z.log2 m / 3 + 1 <? (emin - p) / 3 - 8); [apply Z.eqb_eq in H; exact H|].
+    destruct ((2 - emin) / 3 + 8 <? e); [apply Z.eqb_eq in H; fold P; fold inf_bits; exact H|].
+    set (b' := fp_tail p emin (if 0 <=? e then m * 10 ^ e else m) (if 0 <=? e then 1 else 10 ^ (- e))) in *.
+    destruct (Z.ltb_spec b' 0) as [|Hb0']; [discriminate|]. destruct (Z.ltb_spec inf_bits b') as [|Hbi']; [discriminate|]. cbn [orb] in Hc.
+    destruct (Z.lt_trichotomy b b') as [Hlt|[Heq|Hgt]]; [|exact Heq|].
+    - exfalso. exact (rt_core_unique m e b b' Hb0 Hlt Hbi' H Hc).
+    - exfalso. exact (rt_core_unique m e b' b Hb0' Hgt Hbi Hc H).
+  Qed.
 End Format.
